@@ -437,6 +437,13 @@ class Point:
                     # exp of a non-zero pure number: transcendental constant, keep as named base
                     pass
             mk = self.canon_mono(m)
+            if len(mk) == 1 and mk[0][0][0] == 'logval' and mk[0][1] == 1 and ci == 0 and cr.denominator == 1 and not times_i:
+                # exp(k log x) = x^k for integer k
+                try:
+                    r = c_mul(r, c_pow(mk[0][0][1], int(cr)))
+                except ZeroDivisionError:
+                    raise Resample()
+                continue
             for part, imag in ((cr, False), (ci, True)):
                 if part == 0: continue
                 k = part * DEN
@@ -774,6 +781,34 @@ def subst(n, mapping, memo=None):
             elif op == 'div': r = div(*a)
             elif op == 'powi': r = powi(a[0], n.val)
             elif op == 'cmp': r = cmp(n.val, *a)
+            elif op == 'fn': r = fn(n.val, *a)
+            else: raise AnalysisError(op)
+        memo[n.uid] = r
+        return r
+    return s(n)
+
+
+def specialize(n, hook, memo=None):
+    """replace every comparison mask the hook decides (hook(node) -> 0/1/None) by that constant and re-simplify"""
+    memo = {} if memo is None else memo
+
+    def s(n):
+        r = memo.get(n.uid)
+        if r is not None: return r
+        op = n.op
+        if op == 'cmp':
+            a = [s(t) for t in n.args]
+            nn = cmp(n.val, *a)
+            v = hook(nn) if nn.op == 'cmp' else None
+            r = const(int(bool(v))) if v is not None else nn
+        elif not n.args:
+            r = n
+        else:
+            a = [s(t) for t in n.args]
+            if op == 'add': r = add(*a)
+            elif op == 'mul': r = mul(*a)
+            elif op == 'div': r = div(*a) if not is_const(a[0], 0) else ZERO
+            elif op == 'powi': r = powi(a[0], n.val)
             elif op == 'fn': r = fn(n.val, *a)
             else: raise AnalysisError(op)
         memo[n.uid] = r
